@@ -60,7 +60,11 @@ RULE = ("E2: breadth-first search over ALL operation histories on a real behave.
         "inner raising cleanup / with a generator fixture / setting+deleting an attribute, sets an attribute} in every "
         "frame of 4 stack shapes, and every sequence of <= 3 of those kinds + execute_steps in the testrun / feature / "
         "rule / scenario scope of a real ModelRunner run (LIFO exactly-once log, error raised iff some cleanup raised, "
-        "first error, stack restored, owner status and verdict). E3: every placement of <= 3 (thorough 4) cleanup registrations {plain, args, kwargs, generator-fixture "
+        "first error, stack restored, owner status and verdict). Nested execute_steps in real runs: nesting depth 1..3 x "
+        "the step at every level carrying {text, table, both, none} (distinct values per level, a sibling sub-step with "
+        "other data before each nested call) x innermost sub-step {passes, fails, raises}: every step sees its own "
+        "text/table, every caller sees its own again after execute_steps() returns or raises, every after_step hook sees "
+        "the data of its own step, the next step sees none. E3: every placement of <= 3 (thorough 4) cleanup registrations {plain, args, kwargs, generator-fixture "
         "teardown} x {current frame, layer=each present layer} on 4 stack shapes x EVERY raising subset x {default "
         "on_cleanup_error; custom one up to 2 (thorough 3) registrations}. E1: real ModelRunner runs of a tagged feature + outline + rule program (66-72 "
         "callbacks: all 12 hook kinds and all steps incl. execute_steps sub-steps) whose callbacks probe every name set "
@@ -1957,6 +1961,175 @@ def reentrant_run_case(case):
 
 
 # =============================================================================
+# nested execute_steps: step -> execute_steps -> step -> execute_steps -> ... ; every level's
+# caller has its own text/table and must see exactly that again when execute_steps() returns
+# or raises; every after_step hook sees the data of its own step
+# =============================================================================
+DATA_KINDS = ("text", "table", "both", "none")
+LEAF_OUTCOMES = ("passes", "fails", "raises")
+
+
+def level_data(kind, tag):
+    """-> (text or None, table as (headings, rows) or None) a step of this kind carries"""
+    text = u"text-%s" % tag if kind in ("text", "both") else None
+    table = ((u"c%s" % tag,), ((u"v%s" % tag,),)) if kind in ("table", "both") else None
+    return (text, table)
+
+
+def render_step(keyword, name, kind, tag, indent):
+    text, table = level_data(kind, tag)
+    lines = [u"%s%s %s" % (indent, keyword, name)]
+    if text is not None:
+        lines += [indent + u'  """', indent + u"  " + text, indent + u'  """']
+    if table is not None:
+        lines += [indent + u"  | %s |" % table[0][0], indent + u"  | %s |" % table[1][0][0]]
+    return u"\n".join(lines) + u"\n"
+
+
+def snapshot(text, table):
+    t = None if text is None else u"%s" % text
+    tb = None
+    if table is not None:
+        tb = (tuple(u"%s" % h for h in table.headings), tuple(tuple(u"%s" % c for c in row.cells) for row in table.rows))
+    return (t, tb)
+
+
+def nested_exec_cases():
+    for depth in (1, 2, 3):
+        for kinds in itertools.product(DATA_KINDS, repeat=depth + 1):
+            for outcome in LEAF_OUTCOMES:
+                yield (depth, kinds, outcome)
+
+
+def nested_exec_case(case):
+    """(depth, data kind of the step at level 0..depth, outcome of the innermost sub-step)"""
+    import logging
+    from behave import matchers
+    from behave.configuration import Configuration
+    from behave.step_registry import StepRegistry
+    from behave.parser import parse_feature
+    from behave.runner import ModelRunner
+    from io import StringIO
+    depth, kinds, outcome = case
+    root = logging.getLogger()
+    saved = (root.level, list(root.handlers), sys.stdout, sys.stderr)
+    matchers.use_step_matcher("parse")
+    events = []
+
+    def ctx_snapshot(context):
+        return snapshot(getattr(context, "text", "<AE>"), getattr(context, "table", None))
+
+    def level(context, n):
+        events.append(("enter", n, ctx_snapshot(context)))
+        if n == depth:
+            if outcome == "fails":
+                assert False, "innermost sub-step fails"
+            if outcome == "raises":
+                raise Boom("innermost sub-step raises")
+            return
+        sib_kind = DATA_KINDS[(DATA_KINDS.index(kinds[n]) + 2) % 4]      # differs from the caller's own kind
+        steps_text = render_step(u"Given", u"sib %d" % n, sib_kind, u"S%d" % n, u"") + \
+            render_step(u"When", u"level %d" % (n + 1), kinds[n + 1], u"L%d" % (n + 1), u"")
+        try:
+            context.execute_steps(steps_text)
+        except AssertionError:
+            events.append(("after-exec", n, ctx_snapshot(context), "AssertionError"))
+            raise
+        except Exception as e:      # pylint: disable=broad-except
+            events.append(("after-exec", n, ctx_snapshot(context), type(e).__name__))
+            raise
+        events.append(("after-exec", n, ctx_snapshot(context), "ok"))
+
+    def sib(context, n):
+        events.append(("sib", n, ctx_snapshot(context)))
+
+    def check(context):
+        events.append(("next-step", ctx_snapshot(context)))
+
+    def after_step(context, step):
+        events.append(("after_step", u"%s" % step.name, ctx_snapshot(context), snapshot(step.text, step.table)))
+
+    feature_text = u"Feature: N\n  Scenario: S\n" + render_step(u"Given", u"level 0", kinds[0], u"L0", u"    ") + \
+        u"    Then check\n"
+    with warnings.catch_warnings():
+        warnings.simplefilter("ignore")
+        try:
+            sys.stdout = StringIO()
+            cfg = Configuration("", load_config=False)
+            reg = StepRegistry()
+            reg.add_step_definition("step", u"level {n:d}", level)
+            reg.add_step_definition("step", u"sib {n:d}", sib)
+            reg.add_step_definition("step", u"check", check)
+            feature = parse_feature(feature_text, filename="n.feature")
+            runner = ModelRunner(cfg, [feature], step_registry=reg)
+            runner.hooks = {"after_step": after_step}
+            runner.formatters = []
+            failed = runner.run()
+        finally:
+            sys.stdout, sys.stderr = saved[2], saved[3]
+            root.setLevel(saved[0])
+            root.handlers[:] = saved[1]
+    scenario = feature.run_items[0]
+    statuses = tuple(st.status.name for st in scenario.steps)
+    v = []
+    where = "nesting depth %d, data of levels %r, innermost sub-step %s" % case
+
+    def below(n):
+        return "1" if depth - n == 1 else (">=2" if depth - n >= 2 else "0")
+
+    def bad(clause, n, text):
+        if not any(d["clause"] == clause for d, _m in v):
+            v.append(({"subcheck": "execute_steps-nested", "clause": clause, "nested_below": below(n)},
+                      "%s: %s" % (where, text)))
+
+    # ---- the expected event sequence
+    want = []
+    for n in range(depth + 1):
+        want.append(("enter", n))
+        if n < depth:
+            want.append(("sib", n))
+    leaf_ok = outcome == "passes"
+    seen = [(e[0], e[1]) for e in events if e[0] in ("enter", "sib")]
+    if seen != want:
+        bad("sub-steps-executed", 0, "steps entered %r, expected %r" % (seen, want))
+    for e in events:
+        if e[0] == "enter":
+            own = level_data(kinds[e[1]], "L%d" % e[1])
+            if e[2] != own:
+                bad("step-sees-own-data", e[1], "step at level %d sees %r, its own text/table is %r" % (e[1], e[2], own))
+        elif e[0] == "sib":
+            own = level_data(DATA_KINDS[(DATA_KINDS.index(kinds[e[1]]) + 2) % 4], "S%d" % e[1])
+            if e[2] != own:
+                bad("step-sees-own-data", e[1] + 1, "sibling sub-step of level %d sees %r, its own is %r" % (e[1], e[2], own))
+        elif e[0] == "after-exec":
+            own = level_data(kinds[e[1]], "L%d" % e[1])
+            if e[2] != own:
+                bad("caller-data-restored", e[1],
+                    "after execute_steps() (%s) the caller at level %d sees %r, its own text/table is %r"
+                    % (e[3], e[1], e[2], own))
+            if e[3] != ("ok" if leaf_ok else "AssertionError"):
+                bad("failure-propagates", e[1], "execute_steps() at level %d ended with %s" % (e[1], e[3]))
+        elif e[0] == "after_step":
+            if e[2] != e[3]:
+                n = int(e[1].split()[-1]) if e[1].split()[0] == "level" else depth
+                bad("after_step-sees-own-data", n,
+                    "after_step(%s) sees %r, the step's own text/table is %r" % (e[1], e[2], e[3]))
+        elif e[0] == "next-step":
+            if e[1] != (None, None):
+                bad("next-step-data", 0, "the next step (no text, no table) sees %r" % (e[1],))
+    n_after = sum(1 for e in events if e[0] == "after-exec")
+    if n_after != depth and not v:
+        bad("sub-steps-executed", 0, "%d execute_steps() calls observed, expected %d" % (n_after, depth))
+    want_status = ("passed", "passed") if leaf_ok else ("failed", "skipped")
+    if (statuses != want_status or bool(failed) != (not leaf_ok)) and not v:
+        bad("status", 0, "step statuses %r, run failed=%r; expected %r, failed=%r"
+            % (statuses, failed, want_status, not leaf_ok))
+    nt = keydigest(("nested-exec", case)) if depth >= 2 and len(set(kinds)) > 1 else None
+    return {"v": v, "dg": (tuple(events), statuses, failed), "nt": nt,
+            "out": ("nested-exec", depth, outcome, statuses)}
+
+
+# =============================================================================
 # driver
 # =============================================================================
 def run(ctx):
@@ -2000,6 +2173,10 @@ def run(ctx):
     ctx.sweep(reentrant_run_case, reentrant_run_cases(3), chunk=16, name="re-entrant cleanups in real runs: <= 3 per scope")
     bounds["reentrant_cleanups"] = {"kinds": list(RE_KINDS), "real_run_kinds": list(RE_RUN_KINDS),
                                     "per_layer": re_n, "per_scope_in_real_runs": 3, "orders": "all"}
+    # ---- nested execute_steps
+    ctx.sweep(nested_exec_case, nested_exec_cases(), chunk=16, name="nested execute_steps: depth 1..3 x data kinds x outcome")
+    bounds["nested_execute_steps"] = {"depth": 3, "data_kinds_per_level": list(DATA_KINDS),
+                                      "innermost_outcomes": list(LEAF_OUTCOMES)}
     # ---- E1
     probe = ctx.sweep(run_case, [(style, em, (), None) for style in (0, 1, 2, 3) for em in ("ok", "fail")],
                       chunk=1, keep=True, name="real runs: fault-free (counting callbacks)")
